@@ -299,6 +299,8 @@ func (cr *certRun) request(op *certOp) []byte {
 		fl = `,"more":true`
 	case "oneway":
 		fl = `,"oneway":true`
+	case "upgrade":
+		fl = `,"upgrade":true`
 	}
 	return []byte(`{"method":"org.varlink.certification.` + op.M + `","parameters":{` + strings.Join(members, ",") + `}` + fl + `}`)
 }
